@@ -19,6 +19,8 @@ ASSUMPTIONS = ['the str oracle is the str type of the interpreter the suite runs
 
 
 # every character str.splitlines treats as a line boundary, and their nearest non-boundary neighbours
+# base texts that contain SGR sequences as characters (taken verbatim by assign_str); tokens, not characters
+ESC_TOKS = ['\x1b[1m', 'a', ' ', '\n', '-', '\x1b[m']
 LINES = ['\n', '\r', '\x0b', '\x0c', '\x1c', '\x1d', '\x1e', '\x85', '\u2028', '\u2029',
          '\x1f', '\x1a', '\x84', '\x86', '\u2027', '\u202a', 'a']
 
@@ -29,6 +31,13 @@ def bounds(tier):
 
 
 def wrap(text, how):
+    if how in ('e', 'E'):
+        # the text is taken verbatim (assign_str), so it may contain escape sequences: characters like any other
+        v = AnsiString('x' * len(text))
+        v.assign_str(text)
+        if how == 'E' and text:
+            v.apply_formatting(AnsiSetting('1'), 0, 1)
+        return v
     if how in ('S', 's'):
         v = AnsiString(text)
     else:
@@ -161,6 +170,8 @@ def tasks(tier, seed):
     out.append({'fam': 'ws', 'first': None})
     for a in LINES:
         out.append({'fam': 'lines', 'first': a})
+    for a in range(len(ESC_TOKS)):
+        out.append({'fam': 'esc', 'first': a})
     C = ['a', 'A', '1', ' ', "'", '\xdf', 'ǆ', 'ǅ', 'İ', '\xb2', '١', '_', '\xbd', '\x07']     # + vulgar fraction (numeric, no digit), BEL (not printable)
     for a in C:
         out.append({'fam': 'case', 'first': a})
@@ -268,6 +279,17 @@ def run_task(task, acc):
         for t in (task['first'] + u for u in strings(LINES, 2 if tier == 'quick' else 3)):
             run_text(t, ('S', 'T', 's'), [('splitlines', ()), ('splitlines', (True,)), ('splitlines', (False,)),
                                           ('split', ()), ('rsplit', ()), ('strip', ()), ('isspace', ())], acc)
+    elif fam == 'esc':
+        for toks in itertools.product(ESC_TOKS, repeat=3 if tier == 'quick' else 4):
+            t = ESC_TOKS[task['first']] + ''.join(toks)
+            if '\x1b' not in t:
+                continue
+            cases = [('split', ()), ('rsplit', ()), ('split', ('-',)), ('rsplit', ('-', 1)), ('splitlines', ()), ('splitlines', (True,)),
+                     ('partition', ('-',)), ('rpartition', ('a',)), ('strip', ()), ('lstrip', ('a',)), ('rstrip', (' ',)),
+                     ('removeprefix', ('a',)), ('removesuffix', ('a',)), ('replace', ('a', 'zz')), ('replace', (' ', '')),
+                     ('upper', ()), ('title', ()), ('count', ('a',)), ('find', ('m',)), ('ljust', (len(t) + 2, '*')),
+                     ('center', (len(t) + 3, '*')), ('zfill', (len(t) + 1,)), ('expandtabs', (2,)), ('len', ()), ('in', ('1m',))]
+            run_text(t, ('e', 'E'), cases, acc)
     elif fam == 'case':
         C = ['a', 'A', '1', ' ', "'", '\xdf', 'ǆ', 'ǅ', 'İ', '\xb2', '١', '_', '\xbd', '\x07']     # + vulgar fraction (numeric, no digit), BEL (not printable)
         if task['first'] is None:
